@@ -117,6 +117,10 @@ func main() {
 		workerMain(os.Args[2:])
 		return
 	}
+	if len(os.Args) > 1 && os.Args[1] == "sworker" {
+		shapeWorkerMain(os.Args[2:])
+		return
+	}
 	if len(os.Args) > 1 && os.Args[1] == "cworker" {
 		concWorkerMain(os.Args[2:])
 		return
@@ -131,21 +135,36 @@ func main() {
 	tuples := e.Pick(6, 150)
 	sigs := allSigs()
 	const per = 24
-	nChunks := (len(sigs) + per - 1) / per
-	outs := make([]chunkOut, nChunks)
-
-	lib.ParallelMap(nChunks, 0, func(ci int) {
+	nSigChunks := (len(sigs) + per - 1) / per
+	// jobs: ranges of signatures (sequential phase) and one shapes job per registration path
+	type job struct {
+		what string
+		argv []string
+	}
+	var jobs []job
+	for ci := 0; ci < nSigChunks; ci++ {
 		lo, hi := ci*per, ci*per+per
 		if hi > len(sigs) {
 			hi = len(sigs)
 		}
+		jobs = append(jobs, job{fmt.Sprintf("signatures [%d,%d)", lo, hi),
+			[]string{"worker", strconv.FormatInt(e.Seed, 10), strconv.Itoa(nRand), strconv.Itoa(tuples), strconv.Itoa(lo), strconv.Itoa(hi)}})
+	}
+	for _, path := range []string{"func", "method", "conv"} {
+		jobs = append(jobs, job{"call shapes on path " + path, []string{"sworker", strconv.FormatInt(e.Seed, 10), strconv.Itoa(nRand), path}})
+	}
+	nChunks := len(jobs)
+	outs := make([]chunkOut, nChunks)
+
+	lib.ParallelMap(nChunks, 0, func(ci int) {
+		jb := jobs[ci]
 		o := &outs[ci]
 		log := filepath.Join(e.Scratch, fmt.Sprintf("chunk%d.log", ci))
 		skip := ""
 		for attempt := 0; attempt < 50; attempt++ {
 			o.children++
 			r := lib.RunProc(lib.ProcSpec{
-				Argv:    []string{self, "worker", strconv.FormatInt(e.Seed, 10), strconv.Itoa(nRand), strconv.Itoa(tuples), strconv.Itoa(lo), strconv.Itoa(hi), log},
+				Argv:    append(append([]string{self}, jb.argv...), log),
 				Dir:     e.Scratch,
 				Env:     []string{"C17_SKIP_UNTIL=" + skip, "GOTRACEBACK=all"},
 				Timeout: 45 * time.Minute, // watchdog only
@@ -153,16 +172,16 @@ func main() {
 			})
 			dangling := parseLog(log, o)
 			if r.TimedOut {
-				o.inconcl = append(o.inconcl, fmt.Sprintf("worker for signatures [%d,%d) hit the watchdog at case %q", lo, hi, dangling))
+				o.inconcl = append(o.inconcl, fmt.Sprintf("worker for %s hit the watchdog at case %q", jb.what, dangling))
 				return
 			}
 			if r.Err != nil {
-				o.inconcl = append(o.inconcl, fmt.Sprintf("worker for signatures [%d,%d) could not start: %v", lo, hi, r.Err))
+				o.inconcl = append(o.inconcl, fmt.Sprintf("worker for %s could not start: %v", jb.what, r.Err))
 				return
 			}
 			if dangling == "" {
 				if r.Exit != 0 {
-					o.inconcl = append(o.inconcl, fmt.Sprintf("worker for signatures [%d,%d) exited %d between cases: %s", lo, hi, r.Exit, firstLine(r.Stderr)))
+					o.inconcl = append(o.inconcl, fmt.Sprintf("worker for %s exited %d between cases: %s", jb.what, r.Exit, firstLine(r.Stderr)))
 				}
 				return
 			}
@@ -170,7 +189,7 @@ func main() {
 			o.fatal = append(o.fatal, fatalDeath{dangling, r.Stderr, r.Exit, r.Signal})
 			skip = dangling
 		}
-		o.inconcl = append(o.inconcl, fmt.Sprintf("worker for signatures [%d,%d): too many deaths, gave up", lo, hi))
+		o.inconcl = append(o.inconcl, fmt.Sprintf("worker for %s: too many deaths, gave up", jb.what))
 	})
 
 	distinct := map[uint64]struct{}{}
